@@ -168,7 +168,14 @@ impl PanicInfo {
         // "/rustc/<hash>/library/alloc/..." -> "library/alloc/..." (no toolchain hash in the identity)
         let f = match self.file.find("/library/") {
             Some(i) if self.file.starts_with("/rustc/") => &self.file[i + 1..],
-            _ => self.file.strip_prefix("/repo/").unwrap_or(&self.file),
+            _ => match self.file.strip_prefix("/repo/") {
+                Some(rest) => rest,
+                // a scratch copy of the repository (scripts/par_eval.py): same identity as in /repo
+                None => match self.file.find("/repo/") {
+                    Some(i) => &self.file[i + 6..],
+                    None => &self.file,
+                },
+            },
         };
         format!("file={} kind={}", f, kind)
     }
